@@ -343,6 +343,8 @@ def run(ctx) -> None:
     ctx.rule("R4", "exempted characters are consumed by a dedicated step (bracket look-behind; backslash)")
     ctx.rule("R5", "rendering inverts the escapes and drops anchors")
     ctx.rule("R6", "pattern text from setup.cfg reaches the compiler verbatim (no %-interpolation in the INI reader)")
+    ctx.rule("R8", "a search pattern is refused by the config loader only for an unescaped `[` in first position (every other literal text is a legal pattern)")
+    refused_patterns_rule(ctx, "R8")
     ctx.rule("R7", "a part name is substituted only where it does not overlap a part already substituted (text next to a part stays literal); the expression is searched in the unmodified line")
 
     table = prog.const("patterns", "RE_PATTERN_ESCAPES")
@@ -595,3 +597,28 @@ def run(ctx) -> None:
         ctx.check("R7", a0 is not None and isinstance(a0, ast.Name) and a0.id in line_vars and c.func.attr == "search", f"{lsf.name}: the expression is searched in the unmodified line `{unparse(a0) if a0 is not None else None}`",
                   f"parse.{lsf.name}: the pattern is not searched in the line as it is",
                   f"`{unparse(c)}`: e.g. with the line right-stripped, a pattern whose literal text ends in blanks no longer matches its own line", loc=lsf.loc(c), witness={"pattern": "Release: {version}  "})
+
+
+def refused_patterns_rule(ctx, rule: str) -> None:
+    """config._compile_v2_file_patterns raises for a raw pattern exactly when it starts with `[`: the guard of each raise,
+    folded for patterns that start / end / neither / both with `[` (and the escaped `\\[` at the end)."""
+    from sa.model import CannotFold
+    prog = ctx.prog
+    fn = prog.function("config._compile_v2_file_patterns")
+    ctx.visit(fn.fq)
+    guards = [n for n in ast.walk(fn.node) if isinstance(n, ast.If) and any(isinstance(b, ast.Raise) for b in n.body)
+              and any(isinstance(x, ast.Name) and x.id == "raw_pattern" for x in ast.walk(n.test))]
+    ctx.floor(rule, "pattern-refusing guards in _compile_v2_file_patterns", len(guards), 1)
+    samples = {"[opt] {version}": True, "release {version} \\[": False, "{version}": False, "[x] \\[": True, "a [b] c": False, "\\[literal\\] {version}": False}
+    for g in guards:
+        wrong = []
+        try:
+            for pat, want in samples.items():
+                got = bool(prog.fold(fn.module, g.test, {"raw_pattern": pat}))
+                if got != want:
+                    wrong.append(f"{pat!r} is {'refused' if got else 'accepted'}")
+        except CannotFold:
+            ctx.observe(f"_compile_v2_file_patterns: guard `{unparse(g.test)[:60]}` not foldable")
+            continue
+        ctx.check(rule, not wrong, f"_compile_v2_file_patterns: `{unparse(g.test)}` refuses exactly the patterns that start with `[`",
+                  "config._compile_v2_file_patterns: a legal search pattern is refused (or a leading `[` accepted)", "; ".join(wrong[:3]), loc=fn.loc(g), witness={"pattern": "releases {version} \\["})
